@@ -281,6 +281,47 @@ def ops():
         plt.close("all")
     O["draw+render(t=2,icons,trajectory,occupancies,signals)"] = render_t2
 
+    def render_all_on(sc, pps):
+        # every boolean switch of the draw parameters that is off by default is switched on (traffic signs, lights, labels, ids, directions, ...)
+        import dataclasses
+        import matplotlib
+        matplotlib.use("Agg")
+        import matplotlib.pyplot as plt
+        from commonroad.visualization.mp_renderer import MPRenderer
+        from commonroad.visualization.draw_params import MPDrawParams, BaseParam
+
+        def walk(g):
+            for f in dataclasses.fields(g):
+                v = getattr(g, f.name)
+                if isinstance(v, BaseParam):
+                    walk(v)
+                elif isinstance(v, bool) and not v and not f.name.startswith("_") and f.name not in ("antialiased", "axis_visible"):
+                    object.__setattr__(g, f.name, True)
+        dp = MPDrawParams()
+        walk(dp)
+        dp.time_begin = 1
+        dp.time_end = 3
+        rnd = MPRenderer()
+        try:
+            sc.draw(rnd, dp)
+            pps.draw(rnd, dp)
+            rnd.render()
+        except Exception:
+            pass            # whether every combination of switches can be rendered is C19's question; here only what the attempt leaves behind
+        plt.close("all")
+    O["draw+render(every-switch-on)"] = render_all_on
+
+    def derive_networks(sc, pps):
+        # building NEW networks from this one's lanelets (the library copies them) leaves this one as it is
+        from commonroad.scenario.lanelet import LaneletNetwork
+        from commonroad.geometry.shape import Rectangle
+        net = sc.lanelet_network
+        LaneletNetwork.create_from_lanelet_list(net.lanelets)
+        LaneletNetwork.create_from_lanelet_list(net.lanelets, cleanup_ids=False)
+        LaneletNetwork.create_from_lanelet_network(net)
+        LaneletNetwork.create_from_lanelet_network(net, Rectangle(30.0, 10.0, np.array([10.0, 2.0]), 0.0))
+    O["lanelet_network.derive-new-networks"] = derive_networks
+
     def write(fmt, scenario_only=False):
         def f(sc, pps, fmt=fmt):
             d = tempfile.mkdtemp(prefix="c18w_")
